@@ -298,6 +298,22 @@ fn corpus() -> Vec<String> {
 	out
 }
 
+fn corpus_bytes() -> Vec<Vec<u8>> {
+	let mut out = vec![];
+	if let Ok(rd) = std::fs::read_dir("/repo/tests/inputs") {
+		let mut paths: Vec<_> = rd.filter_map(|e| e.ok()).map(|e| e.path()).collect();
+		paths.sort();
+		for p in paths {
+			if let Ok(bytes) = std::fs::read(&p) {
+				if bytes.len() <= 300 {
+					out.push(bytes)
+				}
+			}
+		}
+	}
+	out
+}
+
 fn observed_outcome(s: &str, o: Options) -> (J, usize, bool) {
 	let items: Vec<DecodedChar> = s.chars().map(DecodedChar::from_utf8).collect();
 	let mut it = Counting::new(&items);
@@ -394,12 +410,70 @@ pub fn record(args: &Args) {
 			}
 		}
 	}
+	// ---- byte input: random byte strings, single-byte edits and truncations of the raw corpus files
+	let nbytes = args.num("bytes", n / 2);
+	let raw = corpus_bytes();
+	for i in 0..nbytes {
+		let mut b: Vec<u8> = match i % 4 {
+			0 => (0..rng.below(10)).map(|_| *rng.pick(&[b'[', b']', b'{', b'}', b'"', b':', b',', b'1', b'-', b'e', b' ', b't', b'\\', b'u', 0x80, 0xbf, 0xc2, 0xe2, 0x82, 0xac, 0xf0, 0x9f, 0xed, 0xa0, 0xff, 0xc0, 0xfe])).collect(),
+			1 => (0..rng.below(8)).map(|_| rng.below(256) as u8).collect(),
+			_ if !raw.is_empty() => rng.pick(&raw).clone(),
+			_ => g.doc(&mut rng, 2).into_bytes(),
+		};
+		if i % 4 >= 2 && !b.is_empty() {
+			let p = rng.below(b.len());
+			match rng.below(4) {
+				0 => b.truncate(p),
+				1 => b[p] = rng.below(256) as u8,
+				2 => b.insert(p, *rng.pick(&[0xff, 0x80, 0xc3, 0xe2, b'"', b'x'])),
+				_ => {
+					b.remove(p);
+				}
+			}
+		}
+		let o = ALL_OPTS[if i % 3 == 0 { rng.below(4) } else { 0 }];
+		let got = project_result(guarded(|| Value::parse_slice_with(&b, o)));
+		// the fallible-iterator entry point sees the same stream
+		let stream = fallible_chars(&b);
+		let alt = stream_as_utf8(project_result(guarded(|| Value::parse_utf8_with(stream.iter().cloned(), o))));
+		if alt != got {
+			disagree.push(json!({"bytes": b, "o": opts_j(&o), "parse_slice_with": got, "parse_utf8_with(fallible)": alt}));
+		}
+		lines.push(json!({"ev": "bdoc", "b": b, "o": opts_j(&o), "out": got}));
+	}
+	// ---- thorough: EVERY truncation and EVERY single-character edit (from a small replacement set) of short corpus documents
+	if args.get("exhaustive-edits").is_some() {
+		let reps = ['"', '\\', ',', 'x', '0', ' ', '\u{1}', '}'];
+		for doc in corpus.iter().filter(|d| d.chars().count() <= 60) {
+			let cs: Vec<char> = doc.chars().collect();
+			let mut variants: Vec<String> = (0..cs.len()).map(|p| cs[..p].iter().collect()).collect();
+			for p in 0..cs.len() {
+				for r in reps.iter() {
+					if cs[p] != *r {
+						let mut c = cs.clone();
+						c[p] = *r;
+						variants.push(c.into_iter().collect());
+					}
+				}
+				let mut c = cs.clone();
+				c.remove(p);
+				variants.push(c.into_iter().collect());
+			}
+			for t in variants {
+				let (got, pulls, agree) = observed_outcome(&t, ALL_OPTS[0]);
+				if !agree {
+					disagree.push(json!({"w": str_to_cps(&t)}));
+				}
+				lines.push(json!({"ev": "doc", "w": str_to_cps(&t), "o": opts_j(&ALL_OPTS[0]), "out": got, "pulls": pulls}));
+			}
+		}
+	}
 	use std::io::Write;
 	let mut f = std::fs::File::create(out).unwrap_or_else(|e| tool_error(&format!("create {out}: {e}")));
 	for l in &lines {
 		writeln!(f, "{}", l).unwrap();
 	}
-	let docs = lines.iter().filter(|l| l["ev"] == "doc" || l["ev"] == "done").count();
+	let docs = lines.iter().filter(|l| l["ev"] == "doc" || l["ev"] == "done" || l["ev"] == "bdoc").count();
 	println!("SUMMARY {}", json!({"events": lines.len(), "parses": docs, "lookup_failures": lookup_fail, "entrypoint_disagreements": disagree,
 		"samples": lines.iter().filter(|l| l["ev"] == "doc").take(2).collect::<Vec<_>>()}));
 }
